@@ -145,6 +145,22 @@ func (w *World) implementers(it types.Type) []types.Type {
 	if !ok {
 		return nil
 	}
+	// a closed interface: only the declared dynamic types (iface-types; checked by ifaceTypeObligations)
+	if n, ok := it.(*types.Named); ok && n.Obj().Pkg() != nil {
+		dk := n.Obj().Pkg().Name() + "." + n.Obj().Name()
+		if decl, ok := w.CS.IfaceTypes[dk]; ok {
+			var res []types.Type
+			for _, ts := range decl {
+				if t, err := w.resolveType(n.Obj().Pkg().Name(), ts); err == nil && types.Implements(t, iface) {
+					res = append(res, t)
+				} else {
+					w.CS.Errors = append(w.CS.Errors, fmt.Sprintf("%s: iface-types %s: %q is not a type implementing the interface", w.CS.IfaceTypesAt[dk], dk, ts))
+				}
+			}
+			w.implCache[key] = res
+			return res
+		}
+	}
 	if w.allNamed == nil {
 		for _, p := range w.Prog.AllPackages() {
 			sc := p.Pkg.Scope()
